@@ -5,6 +5,7 @@ import (
 	"go/constant"
 	"go/token"
 	"go/types"
+	"os"
 	"sort"
 	"strings"
 
@@ -422,6 +423,13 @@ func (x *Exprer) callExpr(c *ssa.CallCommon, v ssa.Value) *Expr {
 		return mk("builtin", b.Name(), v, args...)
 	}
 	if fn := x.P.resolveCallee(c); fn != nil {
+		if os.Getenv("XLINT_NO_GETTERS") == "" {
+			if sc := c.StaticCallee(); sc != nil && x.P.trivialGetter(sc) && sc != x.Fn {
+				if rets := x.P.RetExprs(sc, 0); len(rets) == 1 {
+					return substParams(rets[0], args)
+				}
+			}
+		}
 		return canonCall(mk("call", funcName(fn), v, args...))
 	}
 	// dynamic call through a function value
@@ -848,6 +856,13 @@ func canonBin0(op token.Token, a, b *Expr, v ssa.Value) *Expr {
 			}
 			return negate(a)
 		}
+		// x.Cmp(y) ⋄ 0 is a comparison of x and y
+		isCmpCall := func(c *Expr) bool {
+			return c.Op == "call" && (strings.HasSuffix(c.Name, ").Cmp") || strings.HasSuffix(c.Name, "bytes.Compare")) && len(c.Args) == 2
+		}
+		if (isCmpCall(a) && b.Op == "const" && b.Name == "0") || (isCmpCall(b) && a.Op == "const" && a.Name == "0") {
+			return cmpRewrite(mk("bin", name, v, a, b))
+		}
 		// linear normal form for integer equalities
 		if bo, ok := v.(*ssa.BinOp); ok && isIntegerExpr(bo.X) {
 			if l := linearEq(name, a, b, v); l != nil {
@@ -977,6 +992,15 @@ func canonCall(c *Expr) *Expr {
 		last = n[i+1:]
 	}
 	two := len(c.Args) == 2
+	// math/big: z.Op(x, y) stores the result in z and returns z; the previous value of the receiver does not matter
+	// (big.NewInt(0).Add(a, b) and new(big.Int).Add(a, b) are the same number)
+	if strings.HasPrefix(n, "math/big.(*Int).") && len(c.Args) >= 2 {
+		switch last {
+		case "Add", "Sub", "Mul", "Quo", "Div", "Rem", "Mod", "Neg", "Abs", "Set", "SetBytes", "SetUint64", "SetInt64", "Lsh", "Rsh", "Exp", "And", "Or", "Xor", "Not", "Sqrt":
+			na := append([]*Expr{mk("const", "_", nil)}, c.Args[1:]...)
+			c = &Expr{Op: c.Op, Name: c.Name, Args: na, Val: c.Val}
+		}
+	}
 	switch {
 	case n == "bytes.Equal" && two:
 		return orderPair("==", c.Args[0], c.Args[1], c.Val) // same relation as == on arrays of bytes
@@ -1019,4 +1043,52 @@ func ordRewrite(m, suffix string, c *Expr) *Expr {
 	default:
 		return orderPair("=="+suffix, a, b, c.Val)
 	}
+}
+
+// trivialGetter: an in-repository function that is one straight line of field reads, conversions and calls to functions
+// outside the repository, returning a single value (p.SrcChain, common.HexToAddress(tp.ERC20Address), …).  Such a
+// function and its spelled-out body are the same expression; the canonical form always uses the body.
+// keepOpaqueGetter: getters that stay named because sibling implementations compute them differently and the rules
+// compare the siblings by that name (ETH: a stored field; BSC: derived from the validator set).
+var keepOpaqueGetter = map[string]bool{"GetDelayBlock": true}
+
+func (p *Program) trivialGetter(fn *ssa.Function) bool {
+	if v, ok := p.trivial[fn]; ok {
+		return v
+	}
+	ok := inTeleport(fn) && len(fn.Blocks) == 1 && fn.Signature.Results().Len() == 1 && len(fn.FreeVars) == 0 && !isGeneratedFn(p, fn) && !keepOpaqueGetter[fn.Name()]
+	ncalls := 0
+	if ok {
+		for _, ins := range fn.Blocks[0].Instrs {
+			switch t := ins.(type) {
+			case *ssa.Alloc, *ssa.FieldAddr, *ssa.Field, *ssa.Convert, *ssa.ChangeType, *ssa.Return:
+			case *ssa.UnOp:
+				if t.Op != token.MUL {
+					ok = false
+				}
+			case *ssa.Store:
+				if _, isAlloc := t.Addr.(*ssa.Alloc); !isAlloc {
+					ok = false
+				}
+				if _, isParam := t.Val.(*ssa.Parameter); !isParam {
+					ok = false
+				}
+			case *ssa.Call:
+				callee := t.Call.StaticCallee()
+				ncalls++
+				if t.Call.IsInvoke() || callee == nil || inTeleport(callee) || ncalls > 1 {
+					ok = false // at most one conversion-like call on field values (no store access chains)
+				}
+				for _, a := range t.Call.Args {
+					if _, isPtr := a.Type().Underlying().(*types.Pointer); isPtr {
+						ok = false // may write through the pointer
+					}
+				}
+			default:
+				ok = false
+			}
+		}
+	}
+	p.trivial[fn] = ok
+	return ok
 }
